@@ -1,2 +1,4 @@
+pub mod full;
+pub mod full_drive;
 pub mod mrp;
 pub mod mrp_drive;
